@@ -20,6 +20,7 @@ def run(chk, replay=None, prop="C03"):
         count[0] += 1
         if count[0] % 5 == 3: return buffer_cfg(rnd)
         if count[0] % 5 == 1: return chain_cfg(rnd)
+        if count[0] % 5 == 4: return buffer_skip_cfg(rnd)
         return al.gen_cfg(rnd, max_nodes=max_nodes)
     graphs = al.async_suite(chk, n, variants, max_nodes=4 if quick else 5, model_seeds=(1, 2), gen=gen)
     evaluate(chk, graphs, variants, prop)
@@ -89,6 +90,20 @@ def buffer_cfg(rnd):
         conns["n1>n2"] = dict(out="n1", **{"in": "n2"}, blocking=rnd.random() < 0.5, skip=False, jitter="LATEST", window=1, exp=1, delays=[1])
         sup = rnd.choice(["n1", "n2"])
     return dict(nodes=nodes, conns=conns, sup=sup, steps=rnd.choice([8, 10]), _between={"n0>n1": ec + Ps // 2 + rnd.choice([0, 1])})   # raise by at least one receiver period
+
+
+def buffer_skip_cfg(rnd):
+    """a feedback loop closed by a skipped connection with buffered jitter whose messages arrive EARLY and whose expected arrival seq * period + phase
+    falls exactly on a step start of the receiver: the tie rule of skipped connections (strictly after) concerns the actual arrival, the expected arrival
+    only has to be reached (not before)"""
+    P = rnd.choice([4, 8]); e01 = rnd.choice([1, 2]); e1 = 1
+    ph1 = 1 + e01                              # phase of n1: n0's expected delay 1 + the connection's
+    ec = (-(ph1 + e1)) % P or P                # makes the feedback connection's phase a multiple of the period: expected arrivals = n0's step starts
+    nodes = {"n0": dict(nid=0, period=P, exp=1, delays=rnd.choice([[0], [1], [0, 1]]), advance=False, sched="FREQ"),
+             "n1": dict(nid=1, period=P, exp=e1, delays=[rnd.choice([0, 1])], advance=False, sched=rnd.choice(["FREQ", "PHASE"]))}
+    conns = {"n0>n1": dict(out="n0", **{"in": "n1"}, blocking=rnd.random() < 0.5, skip=False, jitter="LATEST", window=rnd.choice([1, 2]), exp=e01, delays=[rnd.choice([0, 1])]),
+             "n1>n0": dict(out="n1", **{"in": "n0"}, blocking=False, skip=True, jitter="BUFFER", window=rnd.choice([1, 2, 3]), exp=ec, delays=[0])}
+    return dict(nodes=nodes, conns=conns, sup=rnd.choice(["n0", "n1"]), steps=rnd.choice([8, 10]))
 
 
 def chain_cfg(rnd):
